@@ -197,7 +197,7 @@ theorem derived_params_consistent_toy (ln : Nat) :
     conditions (so `CanProve` holds), all of `S, Z, G, H, R_i` squares modulo `n` and units,
     derived parameters equal to the regenerated formulas, the requested number of bases and no
     worker left. (Membership of `Z`, `R_i` in `⟨S⟩` is checked by the order criterion
-    `inSubgroup`, whose justification – `QR_n` is cyclic of order `p'q'` – is not formalised.) -/
+    `inSubgroup`, whose justification – `QR_n` is cyclic of order `p'q'` – is proved in `GabiProps/C16Subgroup.lean` (`qr_cyclic`, `inSubgroup_sound`, `wellFormed_bases_in_subgroup`).) -/
 theorem wellFormed_sound (d : KeyPairData) (h : wellFormed d = true) [Fact d.p.Prime] [Fact d.q.Prime] :
     d.p ≠ d.q ∧ d.n = d.p * d.q ∧ natBitLen d.n = d.ln ∧
     natBitLen d.p = d.ln / 2 ∧ natBitLen d.q = d.ln / 2 ∧
